@@ -186,5 +186,5 @@ pub fn canary_c19b(s: &str)
 '''),
 ] + TAIL
 
-OBLIGATIONS = {'validate_suffix': ['C19'], 'validate_caps_text': ['C19'], 'lemma_first_op': ['C19'], 'FileCaps::new': ['C19'], 'FileCaps::from_str': ['C19']}
+OBLIGATIONS = {'validate_suffix': ['C19', 'C17'], 'validate_caps_text': ['C19', 'C17'], 'lemma_first_op': ['C19'], 'FileCaps::new': ['C19', 'C17'], 'FileCaps::from_str': ['C19', 'C17']}   # C17: rejected with an error, never a panic
 CANARIES = ['canary_c19', 'canary_c19b']
